@@ -1,24 +1,32 @@
-(** Property C02, third pass, item (3): the class of the un-parser theorem with the conjuncts
-    [require_equals], value terminators and hyphen / negative-number values lifted.
+(** Property C02, third and fourth pass: the class of the un-parser theorem with the conjuncts of [conv] lifted.
 
     Executable Gallina only.  The items, their rendering and their meaning ([render], [apply_items],
     [occs], [item_pst], ...) are those of Unparse.v, unchanged; what changes is the CLASS:
 
-    * [convx c] (built command): as [conv c], but an argument may have [require_equals], a value
-      terminator, and -- unless it is a positional -- [allow_hyphen_values] / [allow_negative_numbers].
-      Still excluded: [last], [trailing_var_arg], hyphen values on positionals.
+    * [convx c] (built command): [assert_app], no [subcommand_precedence_over_arg], and every OPTION free of
+      [last] / [trailing_var_arg].  Nothing else: [require_equals], value terminators, hyphen / negative-number
+      values (options and positionals), [last(true)] / [trailing_var_arg] positionals, low-index multiples and
+      [allow_missing_positional] are all inside (fourth pass); what they need is local to the items:
     * [wfx_items c pst pos its]: as [wf_items], with per occurrence
       - an option with [require_equals] is only spelled [--o=v] / [-o=v] (clusters [-abco=v] included);
       - a separate value is not the option's (or the positional's) terminator;
       - a separate value of an option with hyphen values is ANY token ([--], [--x], [-x] included); of
         an option with negative-number values also a token [-<number>];
       - an occurrence with separate values of an option with hyphen / negative-number values is complete
-        ([num_args.max] values: otherwise it would swallow the next item as a value).
+        ([num_args.max] values: otherwise it would swallow the next item as a value);
+      - a run of positional values ([posx_ok]) is not for a [last(true)] / [trailing_var_arg] positional, not at a
+        counter where the look-ahead of the counter correction is on ([lookahead_at]), and a positional whose run
+        stays open takes no hyphen / negative-number values; a positional that is left behind after one value may
+        get a flag-looking token the parser hands back as a possible hyphen value ([hyph_single], [hyphen_tok]);
+      - while the counter points at a positional with hyphen / negative-number values a short cluster is a
+        cluster only if it is not such a token ([cluster_clear]).
     * the explicit terminator token is not an item: UnparseXTree.v treats it between two item lists
-      ([loop_terminator_x], [loop_items_term_x], [gmw_items_term_x]). *)
+      ([loop_terminator_x], [loop_items_term_x], [gmw_items_term_x]); the tails of a level ([--] + values, the runs
+      of [trailing_var_arg] / hyphen-valued multi positionals, the look-ahead run) are in UnparseXTrail.v /
+      UnparseXLook.v and enter the trees of UnparseYTree.v. *)
 From ClapModel Require Import Base.Bytes Base.Machine Base.Utf8 Lex.OsStrExtModel.
 From ClapModel Require Import Parse.Cmd Parse.Build Parse.Valid Parse.Matcher Parse.Errors Parse.Validator Parse.Parser.
-From ClapModel Require Import ParseProofs.Actions ParseProofs.Unparse.
+From ClapModel Require Import ParseProofs.Actions ParseProofs.Unparse ParseProofs.Escape.
 From Coq Require Import ZArith List Bool.
 From RecordUpdate Require Import RecordSet.
 Import RecordSetNotations.
@@ -28,12 +36,20 @@ Open Scope N_scope.
 Section XSem.
 Variable c : cmd.
 
-Definition convx_arg (a : arg) : bool :=
-  negb (a_last a) && negb (a_tva a)
-  && (negb (is_some (a_index a)) || (negb (a_hyphen a) && negb (a_negnum a))).
+(** fourth pass: [last(true)] and [trailing_var_arg] are allowed on positionals (an option never has them);
+    a multiple positional below the highest index is allowed when the last positional is [last(true)]
+    ([low_index_mults_any], Escape.v, is the parser's own test: the look-ahead is then switched off) *)
+Definition convx_arg (a : arg) : bool := is_some (a_index a) || (negb (a_last a) && negb (a_tva a)).
 Definition convx : bool :=
-  assert_app c && negb (is_set s_sub_precedence c) && forallb convx_arg (c_args c)
-  && negb (is_set s_allow_missing_pos c) && negb (low_index_multiple c).
+  assert_app c && negb (is_set s_sub_precedence c) && forallb convx_arg (c_args c).
+(** fourth pass, item (4): low-index multiples ([<sources>... <target>]) and [allow_missing_positional] are in the class.
+    They switch on the LOOK-AHEAD of the positional counter correction at the second-to-last positional (unless that
+    positional has a value terminator): the token goes to the LAST positional when the next token looks like a flag or a
+    subcommand, or when there is none.  An ordinary run of positional values is never at that counter ([posx_ok]); the
+    look-ahead run is a tail of the level (UnparseXLook.v [wfx_look], tree constructor [YLook]). *)
+Definition is_terminated (pos : N) : bool := match get_pos c pos with Some a => is_some (a_term a) | None => false end.
+Definition lookahead_at (pos : N) : bool :=
+  (low_index_mults_any c || is_set s_allow_missing_pos c) && (pos + 1 =? positional_count c) && negb (is_terminated pos).
 
 (** a token [-<number>] as [parse_short_arg] sees it *)
 Definition negnum_tok (v : bytes) : bool :=
@@ -62,9 +78,41 @@ Definition wfx_tail (t : ctail) : bool :=
   | TEq o v => short_ok o && is_opt (get_short c o)
   | TSep o vs => short_ok o && sepx_ok (get_short c o) vs
   end.
-Definition posx_ok (pst : pstate_t) (o : option arg) (vs : list bytes) : bool :=
-  pos_ok pst o vs
-  && match o with Some a => forallb (fun v => negb (check_terminator a v)) vs | None => false end.
+(** fourth pass: POSITIONALS may take hyphen / negative-number values.  While the counter points at such a positional
+    the two early exits of [parse_short_arg] are live: a cluster must not be [-<number>] (negative numbers) nor contain
+    an unknown short (hyphen values) -- otherwise it IS a value of the positional ([hyphen_tok]) *)
+Definition pos_negnum (pos : N) : bool := match get_pos c pos with Some a => a_negnum a | None => false end.
+Definition pos_hyphen (pos : N) : bool := match get_pos c pos with Some a => a_hyphen a && negb (a_last a) | None => false end.
+Definition cluster_clear (pos : N) (r : bytes) : bool :=
+  negb (pos_negnum pos && sf_is_negative_number r) && negb (pos_hyphen pos && sf_any_unknown c (S (length r)) r).
+(** a long name the parser knows nothing about *)
+Definition long_unknown (f : bytes) : bool :=
+  negb (is_some (get_long c f)) && negb (is_set s_infer_long c) && negb (is_some (possible_long_flag_subcommand c f)).
+(** a token that looks like a flag but is handed to the positional at [pos] as a value *)
+Definition hyphen_tok (pos : N) (v : bytes) : bool :=
+  negb (is_escape v) &&
+  match to_long v with
+  | Some (f, ok, val) => pos_hyphen pos && ok && negb (is_nil f && negb (is_some val)) && long_unknown f
+  | None => match to_short v with
+            | Some r => (pos_negnum pos && sf_is_negative_number r) || (pos_hyphen pos && sf_any_unknown c (S (length r)) r)
+            | None => false end
+  end.
+(** one such value for a positional that is left behind after it *)
+Definition hyph_single (pst : pstate_t) (pos : N) (vs : list bytes) : bool :=
+  match get_pos c pos, vs, pst with
+  | Some a, [v], PSValuesDone => hyphen_tok pos v && negb (a_is_multiple a)
+  | _, _, _ => false
+  end.
+(** a run of positional values BEFORE [--]: not for a [last(true)] positional (only reachable after [--]) nor
+    for a [trailing_var_arg] one (its run is a tail of the level: UnparseXTrail.v); a positional whose run stays
+    open takes no hyphen / negative-number values (it would swallow the rest of the line: a tail, UnparseXTrail.v) *)
+Definition posx_ok (pst : pstate_t) (pos : N) (vs : list bytes) : bool :=
+  (pos_ok pst (get_pos c pos) vs || hyph_single pst pos vs)
+  && match get_pos c pos with
+     | Some a => forallb (fun v => negb (check_terminator a v)) vs && negb (a_last a) && negb (a_tva a)
+                 && (negb (a_is_multiple a) || (negb (a_hyphen a) && negb (a_negnum a)))
+                 && negb (lookahead_at pos)
+     | None => false end.
 Definition wfx_item (pst : pstate_t) (pos : N) (it : item) : bool :=
   forallb (nosub c) (firstn 1 (render_item it)) &&
   match it with
@@ -74,7 +122,8 @@ Definition wfx_item (pst : pstate_t) (pos : N) (it : item) : bool :=
   | ItCluster fl t =>
       forallb (fun ch => short_ok ch && is_flag (get_short c ch)) fl && wfx_tail t
       && negb (is_nil fl && match t with TNone => true | _ => false end)
-  | ItPos vs => posx_ok pst (get_pos c pos) vs
+      && cluster_clear pos (tl (hd [] (render_item it)))
+  | ItPos vs => posx_ok pst pos vs
   end.
 Fixpoint wfx_items (pst : pstate_t) (pos : N) (its : list item) : bool :=
   match its with
